@@ -242,6 +242,52 @@ func HarnessC14Unique() {
 	verifReach("end")
 }
 
+type verifC14Box struct {
+	P *int64
+	S string
+}
+
+// HarnessC14UniquePointers: deep value equality looks through pointers: 2 or 3 elements that are distinct
+// pointers to int64 values (typed []*int64, []interface{} of pointers, or comparable structs holding such a
+// pointer): a duplicate is reported exactly when two pointees are equal (== on the elements would
+// compare identities and miss it).
+func HarnessC14UniquePointers() {
+	n := 2 + verifChoose(2)
+	vals := make([]int64, 0, n)
+	ps := make([]*int64, 0, n)
+	dup := false
+	for i := 0; i < n; i++ {
+		v := verifPickInt(0, 1, 2)
+		for _, w := range vals {
+			dup = verifOr(dup, v == w)
+		}
+		vals = append(vals, v)
+		p := new(int64)
+		*p = v
+		ps = append(ps, p)
+	}
+	var data interface{}
+	switch verifChoose(3) {
+	case 0:
+		data = ps
+	case 1:
+		xs := make([]interface{}, 0, n)
+		for _, p := range ps {
+			xs = append(xs, p)
+		}
+		data = xs
+	default:
+		xs := make([]interface{}, 0, n)
+		for _, p := range ps {
+			xs = append(xs, verifC14Box{P: p, S: "k"})
+		}
+		data = xs
+	}
+	got := UniqueItems("p", "q", data) != nil
+	verifAssert(got == dup, "uniqueitems-deep-equality-through-pointers")
+	verifReach("end")
+}
+
 // HarnessC14UniqueMixed: two or three elements that are numbers carried by possibly different Go
 // types, strings spelling numbers, or one-element slices of those: a duplicate is reported exactly
 // when two elements are equal as values (numerically equal numbers are equal whatever carries them;
